@@ -28,7 +28,7 @@ def coord_array(ctx, name, shape, flags=None, nominal=None):
         if flags is None:
             arr[idx] = ctx.real(f'{name}{k}', hint=hint)
         else:
-            arr[idx] = ctx.real(f'{name}{k}', nan=flags[idx], hint=hint)
+            arr[idx] = ctx.real(f'{name}{k}', flag=flags[idx], hint=hint)
     return arr
 
 
@@ -140,9 +140,9 @@ def build(ctx, conv, shape, *, bounds='none', as_coords=True, nan_cells=None, da
                 for i in range(nx):
                     for c in range(4):
                         a, b = off[c]
-                        latb[j, i, c] = ctx.real(f'latb{j}_{i}_{c}', nan=bflag[j, i],
+                        latb[j, i, c] = ctx.real(f'latb{j}_{i}_{c}', flag=bflag[j, i],
                                                  hint=float(nlat[j, i] + a * 0.125 + b * 0.5))
-                        lonb[j, i, c] = ctx.real(f'lonb{j}_{i}_{c}', nan=bflag[j, i],
+                        lonb[j, i, c] = ctx.real(f'lonb{j}_{i}_{c}', flag=bflag[j, i],
                                                  hint=float(nlon[j, i] + a * 1.0 - b * 0.25))
             kw = dict(lat_bounds=latb, lon_bounds=lonb)
             P.corners = lambda n: [(lonb[n // nx, n % nx, c], latb[n // nx, n % nx, c]) for c in range(4)]
